@@ -25,15 +25,20 @@ impl ClientSpec {
 #[derive(Clone, Debug, Serialize, Deserialize, PartialEq, Eq)]
 pub struct World {
     pub clients: Vec<ClientSpec>,
-    /// number of addresses in the universe 10.9.0.(10+i)
+    /// number of addresses in the universe 10.9.0.UADDR[i]
     pub universe: u8,
     /// pools as lists of universe indices; pool p is served on server address 10.9.0.(1+p)
     pub pools: Vec<Vec<u8>>,
     pub file_backed: bool,
 }
 
+/// Last octets of the universe addresses.  Neighbouring indices straddle the places where the
+/// decimal text of an address changes width (9|10, 99|100): the store keeps addresses as TEXT,
+/// and anything that compares or sorts them as text behaves differently exactly there.
+const UADDR: [u8; 12] = [9, 10, 8, 11, 99, 100, 7, 12, 98, 101, 254, 4];
+
 pub fn uaddr(i: u8) -> Ipv4Addr {
-    Ipv4Addr::new(10, 9, 0, 10 + i)
+    Ipv4Addr::new(10, 9, 0, UADDR[i as usize % UADDR.len()])
 }
 
 pub fn server_ip(pool: usize) -> Ipv4Addr {
@@ -114,6 +119,13 @@ pub enum Op {
         how: SwapHow,
     },
     Reopen,
+    /// Move the clock to the instant the client's latest lease expires (`off` seconds before,
+    /// at, or after it), *without* the snapping of `Advance`: the next message is handled in the
+    /// second in which "expired" and "unexpired" are both defensible readings.
+    AdvanceToExpiry {
+        client: u16,
+        off: i8,
+    },
 }
 
 #[derive(Clone, Debug, Serialize, Deserialize, PartialEq, Eq)]
@@ -133,6 +145,8 @@ pub struct Profile {
     pub w_reopen: u32,
     pub w_swap: u32,
     pub w_advance: u32,
+    /// weight of AdvanceToExpiry
+    pub w_edge: u32,
     pub file_backed: bool,
 }
 
@@ -145,6 +159,7 @@ impl Profile {
             w_reopen: 0,
             w_swap: 6,
             w_advance: 16,
+            w_edge: 0,
             file_backed: false,
         }
     }
@@ -189,6 +204,7 @@ pub fn op_strategy(p: Profile) -> impl Strategy<Value = Op> {
         p.w_swap => (any::<u16>(), prop_oneof![Just(SwapHow::Shrink), Just(SwapHow::Grow), Just(SwapHow::Disjoint), Just(SwapHow::Restore)])
             .prop_map(|(pool, how)| Op::SwapPool { pool, how }),
         p.w_reopen => Just(Op::Reopen),
+        p.w_edge => (any::<u16>(), -1i8..=1).prop_map(|(client, off)| Op::AdvanceToExpiry { client, off }),
     ]
 }
 
@@ -856,6 +872,21 @@ impl Sim {
                 }
                 self.shift += total;
                 StepObs::Advance { secs: total }
+            }
+            Op::AdvanceToExpiry { client, off } => {
+                let c = pick_idx(*client, self.world.clients.len());
+                let id = self.world.clients[c].identity();
+                let now = wall_now() as i64;
+                let latest = self.rows().iter().filter(|r| r.client == id).map(|r| r.expire as i64).max();
+                match latest {
+                    Some(e) if e - now - (*off as i64) > 0 => {
+                        let d = e - now - (*off as i64);
+                        self.pool.as_mut().unwrap().verif_shift_clock(d).expect("shift");
+                        self.shift += d;
+                        StepObs::Advance { secs: d }
+                    }
+                    _ => StepObs::Noop,
+                }
             }
             Op::SwapPool { pool, how } => {
                 let p = pick_idx(*pool, np);
